@@ -199,6 +199,28 @@ def run(res, tier, seed):
                                          f"{bad_line + 1} (the one reached with a displaced sp) is reported on line {at['sl'] + 1}",
                                  "source": t, "stage": "two returns",
                                  "replay_cmd": "echo '%s' | %s" % (pipe_req("run", [("m.s", t)]), RVH_DEBUG)}
+    # --- the ranges the editor gets (LSP conversion of the integration crate, through the guarded hook): zero-based,
+    # end exclusive - the characters from start to end must be the text the diagnostic designates
+    lsrcs = [s_ for s_ in srcs if "\r" not in s_ and all(ord(c) < 128 for c in s_)][:(40 if tier == "quick" else 400)]
+    lout = run_lines_isolated(RVH_DEBUG, ["lsp 1 %s %s" % (hx("m.s"), hx(s_)) for s_ in lsrcs], chunk=40)
+    stats["lsp_ranges"] = 0
+    for s_, blk in zip(lsrcs, lout):
+        lines_ = (s_ if s_.endswith("\n") else s_ + "\n").split("\n")
+        for l in blk:
+            m = _re.match(r"LSP .* at=(\d+):(\d+):\d+-(\d+):(\d+):\d+ file=\S+ lsp=(\d+):(\d+)-(\d+):(\d+)$", l)
+            if not m or pf(l, "file") == hx("nil"):
+                continue
+            sl, sc, el, ec, a, b, c, d = (int(x) for x in m.groups())
+            stats["lsp_ranges"] += 1
+            if sl != el or a != c:
+                continue
+            want = lines_[sl][sc:ec + 1]
+            got = lines_[a][b:d]
+            if (a, want) != (sl, got) and first is None:
+                first = {"what": f"the range sent to the editor for {unhx(pf(l, 'title'))!r} covers {got!r} (line {a + 1}, "
+                                 f"characters {b}..{d}, end exclusive); the diagnostic designates {want!r}",
+                         "source": s_, "stage": "lsp range",
+                         "replay_cmd": "echo 'lsp 1 %s %s' | %s" % (hx("m.s"), hx(s_), RVH_DEBUG)}
     res.cov["evaluations"] = len(srcs) + len(multi)
     res.cov["distinct_nontrivial"] = len(set(srcs)) + len(multi)
     res.cov["rule"] = ("generated programs and statement soups rendered with random layout (leading blank "
